@@ -268,6 +268,30 @@ theorem updateMaxDefs_rel (B : Builtins) : ∀ (ps : Chain) (st : Tab) (n : Int)
       subst h1 h2
       refine ⟨?_, ?_, ChainRel.refl B _⟩ <;> split <;> rfl
 
+theorem defineNewLocal_spec (B : Builtins) (st : Tab) (ps : Chain) (n : Name) (ch' : Chain) (s : Symbol) (e : Bool)
+    (h : defineNewLocal B st ps n = .ok (ch', s, e)) :
+    ChainRel B (st :: ps) ch' ∧ s.scope ≠ .builtin ∧ ∃ st2 ps2, ch' = st2 :: ps2 ∧ mapGet st2.store n = some s := by
+  unfold defineNewLocal at h
+  cases hi : nextIndex (st :: ps) with
+  | panic m => simp [hi, bind, Res.bind] at h
+  | err e => simp [hi, bind, Res.bind] at h
+  | ok idx =>
+    simp only [hi, bind, Res.bind] at h
+    cases hu : updateMaxDefs { st with numDefinition := st.numDefinition + 1, store := mapSet st.store n { name := n, index := idx, scope := .local } } ps (idx + 1) with
+    | panic m => simp [hu] at h
+    | err e => simp [hu] at h
+    | ok v =>
+      obtain ⟨st2, ps2⟩ := v
+      simp only [hu, pure, Res.ok.injEq, Prod.mk.injEq] at h
+      obtain ⟨h1, h2, h3⟩ := h
+      subst h1 h2 h3
+      obtain ⟨a, b, c⟩ := updateMaxDefs_rel B ps _ _ _ _ hu
+      have hsb := shadowBuiltin_store B st2 n
+      refine ⟨ChainRel.mk ?_ c, by simp, _, _, rfl, ?_⟩
+      · exact TabRel.of_set (k := n) (v := { name := n, index := idx, scope := .local })
+          (by rw [hsb.1, a]) (by rw [hsb.2, b]) (by simp)
+      · rw [hsb.1, a]; simp [mapGet_mapSet]
+
 theorem defineLocal_rel (B : Builtins) (ch : Chain) (n : Name) (ch' : Chain) (s : Symbol) (e : Bool)
     (h : defineLocal B ch n = .ok (ch', s, e)) : ChainRel B ch ch' ∧ s.scope ≠ .builtin ∨
       (ChainRel B ch ch' ∧ e = true ∧ ∃ st ps, ch = st :: ps ∧ mapGet st.store n = some s) := by
@@ -277,31 +301,18 @@ theorem defineLocal_rel (B : Builtins) (ch : Chain) (n : Name) (ch' : Chain) (s 
     unfold defineLocal at h
     cases hg : mapGet st.store n with
     | some sym =>
-      simp only [hg, Res.ok.injEq, Prod.mk.injEq] at h
-      obtain ⟨h1, h2, h3⟩ := h
-      subst h1 h2 h3
-      exact Or.inr ⟨ChainRel.refl B _, rfl, st, ps, rfl, hg⟩
+      simp only [hg] at h
+      split at h
+      · have := defineNewLocal_spec B st ps n ch' s e h
+        exact Or.inl ⟨this.1, this.2.1⟩
+      · simp only [Res.ok.injEq, Prod.mk.injEq] at h
+        obtain ⟨h1, h2, h3⟩ := h
+        subst h1 h2 h3
+        exact Or.inr ⟨ChainRel.refl B _, rfl, st, ps, rfl, hg⟩
     | none =>
       simp only [hg] at h
-      cases hi : nextIndex (st :: ps) with
-      | panic m => simp [hi, bind, Res.bind] at h
-      | err e => simp [hi, bind, Res.bind] at h
-      | ok idx =>
-        simp only [hi, bind, Res.bind] at h
-        cases hu : updateMaxDefs { st with numDefinition := st.numDefinition + 1, store := mapSet st.store n { name := n, index := idx, scope := .local } } ps (idx + 1) with
-        | panic m => simp [hu] at h
-        | err e => simp [hu] at h
-        | ok v =>
-          obtain ⟨st2, ps2⟩ := v
-          simp only [hu, pure, Res.ok.injEq, Prod.mk.injEq] at h
-          obtain ⟨h1, h2, h3⟩ := h
-          subst h1 h2 h3
-          obtain ⟨a, b, c⟩ := updateMaxDefs_rel B ps _ _ _ _ hu
-          refine Or.inl ⟨ChainRel.mk ?_ c, by simp⟩
-          have hsb := shadowBuiltin_store B st2 n
-          exact TabRel.of_set (k := n) (v := { name := n, index := idx, scope := .local })
-            (by rw [hsb.1, a]) (by rw [hsb.2, b]) (by simp)
-
+      have := defineNewLocal_spec B st ps n ch' s e h
+      exact Or.inl ⟨this.1, this.2.1⟩
 
 theorem defineFree_rel (B : Builtins) (r : Bool) (st : Tab) (orig : Symbol) :
     TabRel B r st (defineFree B st orig).1 ∧ (defineFree B st orig).2.scope = .free := by
@@ -476,26 +487,26 @@ theorem defineGlobal_rel (B : Builtins) (q : String) (ch : Chain) (n : Name) (ch
         exact TabRel.of_set (k := n) (v := { name := n, index := -1, scope := .global })
           (by rw [hsb.1]) (by rw [hsb.2]) (by simp)
 
-theorem setParamsLoop_rel (B : Builtins) (q : Name → String) : ∀ (params : List Name) (st : Tab) (ps : Chain)
+theorem setParamsLoop_rel (B : Builtins) (q : Name → String) : ∀ (params : List Name) (k : Nat) (st : Tab) (ps : Chain)
     (st' : Tab) (ps' : Chain) (e : Option String),
-    setParamsLoop B q params st ps = .ok (st', ps', e) → ChainRel B (st :: ps) (st' :: ps') := by
+    setParamsLoop B q params k st ps = .ok (st', ps', e) → ChainRel B (st :: ps) (st' :: ps') := by
   intro params
   induction params with
   | nil =>
-    intro st ps st' ps' e h
+    intro k st ps st' ps' e h
     simp only [setParamsLoop, Res.ok.injEq, Prod.mk.injEq] at h
     obtain ⟨h1, h2, _⟩ := h
     subst h1 h2
     exact ChainRel.refl B _
   | cons param rest ih =>
-    intro st ps st' ps' e h
+    intro k st ps st' ps' e h
     unfold setParamsLoop at h
     cases hg : mapGet st.store param with
     | some sym =>
       simp only [hg, Res.ok.injEq, Prod.mk.injEq] at h
       obtain ⟨h1, h2, _⟩ := h
       subst h1 h2
-      exact ChainRel.refl B _
+      exact ChainRel.mk (TabRel.of_same rfl rfl) (ChainRel.refl B _)
     | none =>
       simp only [hg] at h
       cases hi : nextIndex (st :: ps) with
@@ -514,7 +525,7 @@ theorem setParamsLoop_rel (B : Builtins) (q : Name → String) : ∀ (params : L
           have h1 : ChainRel B (st :: ps) (shadowBuiltin B st2 param :: ps2) :=
             ChainRel.mk (TabRel.of_set (k := param) (v := { name := param, index := idx, scope := .local })
               (by rw [hsb.1, a]) (by rw [hsb.2, b]) (by simp)) c
-          exact ChainRel.trans h1 (ih _ _ _ _ _ h)
+          exact ChainRel.trans h1 (ih _ _ _ _ _ _ h)
 
 theorem setParams_rel (B : Builtins) (q : Name → String) (ch : Chain) (ns : List Name) (ch' : Chain)
     (e : Option String) (h : setParams B q ch ns = .ok (ch', e)) : ChainRel B ch ch' := by
@@ -529,7 +540,7 @@ theorem setParams_rel (B : Builtins) (q : Name → String) (ch : Chain) (ns : Li
       · simp only [Res.ok.injEq, Prod.mk.injEq] at h; obtain ⟨h1, _⟩ := h; subst h1; exact ChainRel.refl B _
       · split at h
         · simp only [Res.ok.injEq, Prod.mk.injEq] at h; obtain ⟨h1, _⟩ := h; subst h1; exact ChainRel.refl B _
-        · cases hl : setParamsLoop B q ns { st with numParams := (ns.length : Int) } ps with
+        · cases hl : setParamsLoop B q ns 0 { st with numParams := (ns.length : Int) } ps with
           | panic m => simp [hl, bind, Res.bind] at h
           | err e => simp [hl, bind, Res.bind] at h
           | ok v =>
@@ -539,7 +550,7 @@ theorem setParams_rel (B : Builtins) (q : Name → String) (ch : Chain) (ns : Li
             subst h1
             have h1 : ChainRel B (st :: ps) ({ st with numParams := (ns.length : Int) } :: ps) :=
               ChainRel.mk (TabRel.of_same rfl rfl) (ChainRel.refl B _)
-            exact ChainRel.trans h1 (setParamsLoop_rel B q _ _ _ _ _ _ hl)
+            exact ChainRel.trans h1 (setParamsLoop_rel B q _ _ _ _ _ _ _ hl)
 
 theorem enableParams_rel (B : Builtins) (ch : Chain) (v : Bool) (ch' : Chain)
     (h : enableParams ch v = .ok ch') : ChainRel B ch ch' := by
